@@ -14,39 +14,10 @@ import JubakoModel.Model.Container
 import JubakoModel.Lemmas.DamageFile
 import JubakoModel.Lemmas.FuncsSync
 import JubakoModel.Lemmas.FuncsParse
+import JubakoModel.Lemmas.NoCrash
+import JubakoModel.Lemmas.FuncsOpen
 
 namespace Jubako
-
-theorem readBlock_no_crash (f : Bytes) (off n : Nat) : (readBlock f off n).isValueOrError = true := by
-  unfold readBlock
-  by_cases h : off + n + 4 ≤ f.length
-  · rw [if_pos h]
-    by_cases hc : checkBlock (slice f off (n + 4)) = true
-    · simp [hc, Outcome.isValueOrError]
-    · simp [hc, Outcome.isValueOrError]
-  · rw [if_neg h]; rfl
-
-theorem packHeader_decode_no_crash (bs : Bytes) : (PackHeader.decode bs).isValueOrError = true := by
-  unfold PackHeader.decode
-  by_cases h1 : bs.length < 60
-  · rw [if_pos h1]; rfl
-  · rw [if_neg h1]
-    by_cases h2 : bs.take 3 ≠ [106, 98, 107]
-    · rw [if_pos h2]; rfl
-    · rw [if_neg h2]
-      cases PackKind.ofByte (bs.getD 3 0) with
-      | none => rfl
-      | some k =>
-        simp only
-        split <;> rfl
-
-theorem bind_no_crash {α β} (x : Outcome α) (f : α → Outcome β) (hx : x.isValueOrError = true)
-    (hf : ∀ a, (f a).isValueOrError = true) : (x.bind f).isValueOrError = true := by
-  cases x <;> simp_all [Outcome.bind, Outcome.isValueOrError]
-
-theorem bind_no_crash' {α β} (x : Outcome α) (f : α → Outcome β) (hx : x.isValueOrError = true)
-    (hf : ∀ a, (f a).isValueOrError = true) : (x >>= f).isValueOrError = true :=
-  bind_no_crash x f hx hf
 
 theorem openHeader_no_crash (f : Bytes) (k : PackKind) : (openHeader f k).isValueOrError = true := by
   unfold openHeader
@@ -269,5 +240,19 @@ theorem map'_isValueOrError {α β : Type} (a : Outcome α) (g : α → β) : (a
 theorem c06_property_parser_crashes_where_source_does (bs : Bytes) :
     (Generated.rawPropertyParse bs).isValueOrError = (RawProp.decode bs).isValueOrError := by
   rw [same_isValueOrError _ _ (gen_rawPropertyParse bs), map'_isValueOrError]
+
+/-- **The blind open whose totality `c06_blindOpen_no_crash` proves is the source's**: `blindOpen` is
+    `open_as_container_pack` as translated from `reader/jubako.rs` on every run, applied to the model's header
+    parses, cut and container-pack open. -/
+theorem c06_blind_open_is_source_open (f : Bytes) :
+    blindOpen f =
+      Generated.openAsContainerPack f.length
+        (if f.length < 60 then .err .format else PackHeader.decode (f.take 60))
+        (do let hd ← readBlock f 0 60; PackHeader.decode hd)
+        (do let hd ← readBlock (slice f (f.length - 64) 64).reverse 0 60; PackHeader.decode hd)
+        (fun origin size => if origin + size ≤ f.length then .ok (origin, size) else .err .format)
+        (fun r => containerPackOpen f r.1 r.2)
+        (fun r uuid => [⟨uuid, r.1, r.2⟩]) :=
+  gen_blindOpen f
 
 end Jubako
